@@ -277,10 +277,13 @@ public:
                            ptr_op_t _right = NULL);
 
   // compile() and calc() call themselves once per level of the expression
-  // tree and once per call of a user-defined function or variable; no parsed
-  // expression is deeper than its number of tokens, so anything deeper is a
-  // definition that refers to itself
-  static const int MAX_DEPTH = 4096;
+  // tree and once per call of a user-defined function or variable.  A parsed
+  // expression of at most 4096 tokens is at most 2048 levels deep (an operator
+  // or a pair of parentheses per level), so anything deeper is a definition
+  // that refers to itself.  A level of recursion through the arguments of a
+  // function call takes about 2.3 KB of stack, so that 4096 levels did not fit
+  // into the usual 8 MB; 2048 levels need less than 5 MB.
+  static const int MAX_DEPTH = 2048;
 
   ptr_op_t compile(scope_t& scope, const int depth = 0,
                    scope_t * param_scope = NULL);
